@@ -66,6 +66,10 @@ type Opts struct {
 	Directives   []string // extra directives that may appear in chains, e.g. "|vfail"
 	Funcs        []string // extra functions taking one argument and returning it
 	ListFuncs    []string // extra functions taking (list, value) and returning a list
+	// CaseTwins: now and then a template is named like another of its namespace but for the case of
+	// the first letter (t3 / T3); SameFileNames: now and then two files are added under one name.
+	CaseTwins     bool
+	SameFileNames bool
 	// Focus names one rarely generated construct that most templates of this case will contain
 	// (swarm testing: every run concentrates on one feature, so that rare features meet the
 	// schedules, histories and faults too).  "" = none; see Features.
@@ -1120,12 +1124,26 @@ func Generate(seed uint64, o Opts) *Case {
 				f.Autoescape = []string{"", "false", "true", "contextual"}[x.pick(4)]
 			}
 		}
+		if o.SameFileNames && i > 0 && x.chance(0.15) {
+			f.Name = files[x.pick(i)].Name
+		}
 		files[i] = f
 		for j, n := 0, 1+x.pick(o.MaxTemplates); j < n; j++ {
 			name := fmt.Sprintf("t%d", tn)
 			// now and then a short name that other namespaces use too
 			if short := fmt.Sprintf("s%d", j); x.chance(0.3) && !taken[f.Namespace+"."+short] {
 				name = short
+			}
+			if o.CaseTwins && x.chance(0.15) {
+				// a name that differs from an earlier one of this namespace in the case of its first letter only
+				for _, sl := range slots {
+					if files[sl.file].Namespace == f.Namespace {
+						if tw := strings.ToUpper(sl.name[:1]) + sl.name[1:]; tw != sl.name && !taken[f.Namespace+"."+tw] {
+							name = tw
+							break
+						}
+					}
+				}
 			}
 			taken[f.Namespace+"."+name] = true
 			slots = append(slots, slot{i, name})
